@@ -15,7 +15,9 @@ EXTRACT = ["C06"]
 BINS = ["c06"]
 NEEDS_CICADA = False
 ALLOWED_AXIOMS = []
-PINNED = ["C06_full", "C06_refuted", "C06_partial", "C06_ids", "C06_binary_search"]
+PINNED = ["C06_full", "C06_refuted", "C06_refuted_unsorted", "C06_refuted_count_waited", "C06_refuted_stop_cont_parked",
+          "C06_refuted_exit_among_stopped", "C06_refuted_partial_continue", "C06_ids", "C06_binary_search", "C06_partial",
+          "C06_nonvacuous"]
 TRUSTED = [
     "Coq 8.16.1 kernel (coqc; coqchk in thorough); vm_compute only in refutation witnesses / Examples",
     "hand transcription of shell.rs job methods, jobc.rs, signals.rs maps, types.rs Job/WaitStatus and of "
@@ -83,7 +85,7 @@ def apply_truth(truth, e):
 
 
 def known_classes(h):
-    """The decidable classes of Known_C06 (same definitions as coq/theories/Proofs/JobsProofs.v),
+    """The decidable classes of Known_C06 (same definitions as known_* in coq/theories/Proofs/JobsSpec.v),
     computed from the history alone."""
     cls = set()
     multi = set()
